@@ -61,6 +61,9 @@ def _canonical_slots(ci):
         ci.properties.pop(new_, None)      # the deprecated alias of the old name
 
 
+PUBLIC_CACHE_OPS = ('load', 'dump', 'sync', 'drop', 'open', 'archived')
+
+
 class CModel(Model):
     """self is the cache; self.archive is the archive role.  When `typestate` is given, the
     (archive, swap) pair is tracked concretely over the four-point domain instead."""
@@ -130,6 +133,10 @@ class CModel(Model):
         line = getattr(node, 'lineno', 0)
         ln = libname(f)
         if f[0] == 'method':
+            if getattr(self, 'compose_public', False) and f[1] in PUBLIC_CACHE_OPS:
+                # a later addition that composes the published operations: each of those is judged on its own, the composition adds no effect of its own
+                st.emit('PUBLICOP', (C(f[1]),) + tuple(args), line)
+                return [R(st, ('opaque', 'publicop'))]
             fi = self.ci.methods[f[1]]
             return self.engine.inline(fi.node, f[1], {}, args, kws, st, node, self_val=SELF)
         if self.typestate:
@@ -213,11 +220,12 @@ class CModel(Model):
         return None
 
 
-def run_cache_method(m, ci, name, unroll=2):
+def run_cache_method(m, ci, name, unroll=2, compose_public=False):
     fi = ci.methods.get(name)
     if fi is None:
         raise AnalysisError('anchor vanished: cache.%s' % name)
     model = CModel(m, ci)
+    model.compose_public = compose_public
     eng = Engine(model, unroll=unroll)
     a = fi.node.args
     st_label = (name,)
@@ -268,13 +276,16 @@ def rule_S_PLAIN_EFF(ctx, repo):
         if name.startswith('_') and name not in ('__init__', '__repr__'):
             # private property helpers: getters may rebind a corrupted slot, setter rebinding is their job
             allow = {'REBIND', 'AREAD'}
+            new_method = False
         elif name in allowed or name in DICT_PRIMS or hasattr(dict, name):
             allow = allowed.get(name, set())
+            new_method = False
         else:
             # a method that is not part of the published interface (a later addition): it may consult the archive, it must not change it
             # other than by composing the public operations - which are judged themselves
             allow = {'AREAD', 'AREADMISS'}
-        fi, outs = run_cache_method(m, ci, name)
+            new_method = True
+        fi, outs = run_cache_method(m, ci, name, compose_public=new_method)
         ctx.analysed(fi.qual)
         ctx.add_paths(outs, fi.qual, trivial_kinds=('BRANCH', 'CAUGHT'))
         seen = set()
